@@ -435,13 +435,13 @@ class Collector:
         en = res.get("enumeration")
         if en:
             ek = f"{en['op']}|{en['family']}"
-            e = self.enum.setdefault(ek, {"pairs": 0, "statements_max": 0, "f1": 0, "f2": 0, "f3": 0, "f4": 0,
+            e = self.enum.setdefault(ek, {"pairs": 0, "statements_max": 0, "f1": 0, "f2": 0, "f3": 0, "f4": 0, "f9": 0,
                                           "attempts": 0, "faults_fired": 0, "threw": 0, "completed": 0,
                                           "f3_all_exhaustive": True})
             e["pairs"] += 1
             e["statements_max"] = max(e["statements_max"], en["statements"])
             e["f1"] += en["f1_positions"]; e["f2"] += en["f2_positions"]
-            e["f3"] += en["f3_positions"]; e["f4"] += en["f4_positions"]
+            e["f3"] += en["f3_positions"]; e["f4"] += en["f4_positions"]; e["f9"] += en.get("f9_positions", 0)
             e["attempts"] += en["attempts"]; e["faults_fired"] += en["faults_fired"]
             e["threw"] += en["threw"]; e["completed"] += en["completed"]
             e["f3_all_exhaustive"] = e["f3_all_exhaustive"] and en["f3_exhaustive"]
@@ -664,7 +664,17 @@ def write_evidence(pid, tier, seed, col, wall, violations, known_hits, samples, 
         "simulated_vfs_calls": col.sim_vfs,
         "simulated_time_covered_s": col.sim_span,
         "simulated_clock_reads": col.clock_reads,
-        "faults_fired": col.faults,
+        "faults_fired": dict(col.faults, **{k: v for k, v in {
+            "F5_close_and_reload": col.probes.get("reload_ok", 0),
+            "F6_clock_jump": col.ops.get("clock", 0) + col.probes.get("clock_jump_at_reload", 0),
+            "F7_foreign_write": col.probes.get("foreign_write", 0),
+            "F8_stored_byte_corruption": col.probes.get("corruptions", 0) + col.probes.get("page_corruptions", 0),
+            "second_party_version_or_layout_rewrite": col.probes.get("detections", 0),
+            "second_party_schema_drift": col.probes.get("drift_applied", 0),
+        }.items() if v}),
+        "fault_kinds_legend": "F1 statement fails at its boundary; F2 interrupt at a VM tick; F3 VFS call fails (I/O error, disk full, "
+                              "cannot open, busy lock); F4 SQLite allocation fails; F9 second party takes the write lock between two statements; "
+                              "F5 close + reload; F6 clock jump; F7 foreign write; F8 stored bytes damaged",
         "op_counts": col.ops,
         "reach_probes": col.probes,
         "per_profile": col.per_profile,
@@ -744,7 +754,7 @@ def cmd_check(pid, tier):
     wall = time.time() - t0
     extra = None
     if col.enum:
-        tot = {k: sum(e[k] for e in col.enum.values()) for k in ("pairs", "f1", "f2", "f3", "f4", "attempts", "faults_fired", "threw", "completed")}
+        tot = {k: sum(e[k] for e in col.enum.values()) for k in ("pairs", "f1", "f2", "f3", "f4", "f9", "attempts", "faults_fired", "threw", "completed")}
         extra = {"fault_enumeration": {"per_operation_and_family": col.enum, "totals": tot,
                                        "f1_exhaustive_within_each_pair": True,
                                        "outer_loop": "sampled (state, call) pairs"}}
